@@ -32,6 +32,12 @@ def inner_adt(f):
     return None, None, None
 
 
+def inner_name(f):
+    """last path segment of the queue-state struct (found by its fields), whatever it is called"""
+    p, _, _ = inner_adt(f)
+    return p.split("::")[-1] if p else "QueueInner"
+
+
 # the poll of a checked-out peer stream: Stream::poll_next, or StreamExt::poll_next_unpin (= Pin::new(s).poll_next(cx))
 INNER_POLL = ("poll_next", "poll_next_unpin")
 
